@@ -463,37 +463,47 @@ example : Gen.rejectExpiredFails true (Gen.expired 1000 1000) = false ∧ Gen.re
 
 /-! ## Precertificates and endpoints -/
 
-/- FULL: "a leaf counts as a precertificate exactly when it has a critical poison extension with a NULL value, a
-   malformed poison extension is always rejected":
-     `(∃ x ∈ c.poison, ¬(x.critical ∧ x.valueIsNull)) → isPrecertificate c = .error ()`.
-   FALSE of the code: `IsPrecertificate` returns at the FIRST extension with the poison OID and the parser does
-   not refuse duplicate extensions, so `[critical NULL, malformed]` is a precertificate (known finding
-   `poison: second poison extension is ignored`).  Proved: the classification by the first poison extension. -/
-
-/-- **poison_classification** (`_partial`: by the first poison extension): a leaf counts as a precertificate
-exactly when its first poison extension is critical with value `05 00`; when that first one is anything else the
-answer is an error; without a poison extension: a certificate. -/
-theorem poison_classification_partial (c : Cert) :
-    (isPrecertificate c = .ok true ↔ ∃ rest, c.poison = ⟨true, true⟩ :: rest) ∧
+/-- **poison_classification** (FULL, over the regenerated loop shape and poison test of `IsPrecertificate`): a leaf counts as a
+precertificate exactly when it has a poison extension and every poison extension it has is critical with value
+`05 00`; a malformed poison extension — wherever it stands among them — is always an error; without a poison
+extension: a certificate.  (Before fix 9856f71 the loop returned at the first poison extension and this statement
+was false; `Gen.poisonLoopStopsAtFirst` is regenerated, so a revert breaks this proof.) -/
+theorem poison_classification (c : Cert) :
+    (isPrecertificate c = .ok true ↔ c.poison ≠ [] ∧ ∀ x ∈ c.poison, x.critical = true ∧ x.valueIsNull = true) ∧
     (isPrecertificate c = .ok false ↔ c.poison = []) ∧
-    (isPrecertificate c = .error () ↔ ∃ p rest, c.poison = p :: rest ∧ ¬(p.critical = true ∧ p.valueIsNull = true)) := by
-  unfold isPrecertificate Gen.poisonInvalid
-  cases hp : c.poison with
-  | nil => simp
-  | cons p rest => obtain ⟨cr, nl⟩ := p; cases cr <;> cases nl <;> simp
+    (isPrecertificate c = .error () ↔ ∃ x ∈ c.poison, ¬(x.critical = true ∧ x.valueIsNull = true)) := by
+  unfold isPrecertificate
+  rw [poisonLoop_spec]
+  generalize c.poison = l
+  by_cases hex : ∃ x ∈ l, ¬(x.critical = true ∧ x.valueIsNull = true)
+  · have hb : l.any (fun x => !(x.critical && x.valueIsNull)) = true := by
+      obtain ⟨x, hx, h⟩ := hex
+      refine List.any_eq_true.2 ⟨x, hx, ?_⟩
+      cases hc : x.critical <;> cases hn : x.valueIsNull <;> simp_all
+    rw [if_pos hb]
+    refine ⟨⟨fun h => (by cases h), fun h => ?_⟩, ⟨fun h => (by cases h), fun h => ?_⟩, ⟨fun _ => hex, fun _ => rfl⟩⟩
+    · obtain ⟨x, hx, hn⟩ := hex; exact absurd (h.2 x hx) hn
+    · obtain ⟨x, hx, _⟩ := hex; rw [h] at hx; cases hx
+  · have hall : ∀ x ∈ l, x.critical = true ∧ x.valueIsNull = true :=
+      fun x hx => Classical.byContradiction fun hn => hex ⟨x, hx, hn⟩
+    have hb : l.any (fun x => !(x.critical && x.valueIsNull)) = false := by
+      rw [List.any_eq_false]; intro x hx; have := hall x hx; simp [this.1, this.2]
+    rw [if_neg (by rw [hb]; simp)]
+    cases l with
+    | nil => simp
+    | cons p rest =>
+      refine ⟨⟨fun _ => ⟨(by simp), hall⟩, fun _ => (by simp)⟩, ⟨fun h => (by simp at h), fun h => (by cases h)⟩,
+        ⟨fun h => (by cases h), fun ⟨x, hx, hn⟩ => absurd (hall x hx) hn⟩⟩
 
-/-- With a single poison extension the classification is the property's. -/
-theorem poison_classification (c : Cert) (p : PoisonExt) (h : c.poison = [p]) :
-    (isPrecertificate c = .ok true ↔ (p.critical = true ∧ p.valueIsNull = true)) ∧
-    (isPrecertificate c = .error () ↔ ¬(p.critical = true ∧ p.valueIsNull = true)) := by
-  unfold isPrecertificate Gen.poisonInvalid
-  obtain ⟨cr, nl⟩ := p
-  rw [h]; cases cr <;> cases nl <;> simp
+/-- The loop shape the model follows is the fixed one: no early return for a well-formed poison extension, the
+recorded flag is what is returned. -/
+theorem poison_loop_as_fixed : Gen.poisonLoopStopsAtFirst = false ∧ Gen.poisonLoopMarks = "found" ∧ Gen.poisonLoopFinalReturn = "found" := by decide
 
 example : isPrecertificate { (default : Cert) with poison := [⟨true, true⟩] } = .ok true := by decide
 example : isPrecertificate { (default : Cert) with poison := [⟨false, true⟩] } = .error () := by decide
-/-- the counter-example to FULL: a malformed second poison extension goes unnoticed -/
-example : isPrecertificate { (default : Cert) with poison := [⟨true, true⟩, ⟨false, false⟩] } = .ok true := by decide
+/-- the former counter-example: a malformed second poison extension is now an error -/
+example : isPrecertificate { (default : Cert) with poison := [⟨true, true⟩, ⟨false, false⟩] } = .error () := by decide
+example : isPrecertificate { (default : Cert) with poison := [⟨true, true⟩, ⟨true, true⟩] } = .ok true := by decide
 
 /-- `addChainInternal` answers 400 when `verifyAddChain` refuses (regenerated status constant): "not admitted"
 at the HTTP surface is status 400. -/
